@@ -35,8 +35,15 @@ def _scripted(name):
     return t2 + "\n" + (CORPUS / "vfctl_blocks.mfront.in").read_text()
 
 
+def _hypo():
+    t = (CORPUS / "VfHypo.mfront.in").read_text()
+    return t.replace("@VFCTL_DECLS@", (CORPUS / "vfctl_decls.mfront.in").read_text()).replace(
+        "@VFCTL_BLOCKS@", (CORPUS / "vfctl_blocks.mfront.in").read_text())
+
+
 # name -> (text builder, behaviour name inside the library)
 SPECS = {
+    "VfHypo": (_hypo, "VfHypo"),
     "Elasticity": (lambda: _ref("Elasticity"), "Elasticity"),
     "Norton": (lambda: _ref("Norton"), "Norton"),
     "Plasticity": (lambda: _ref("Plasticity"), "Plasticity"),
@@ -48,14 +55,14 @@ SPECS = {
 }
 
 # base law of each behaviour (decides material properties and loading amplitudes)
-LAW = {"Elasticity": "elastic", "VfEcho": "elastic", "Norton": "norton", "VfNorton": "norton",
+LAW = {"VfHypo": "hypo", "Elasticity": "elastic", "VfEcho": "elastic", "Norton": "norton", "VfNorton": "norton",
        "ImplicitNorton": "inorton", "VfImplicitNorton": "inorton", "Plasticity": "plastic", "VfPlasticity": "plastic"}
-SCRIPTED = {"VfNorton", "VfImplicitNorton", "VfPlasticity"}
+SCRIPTED = {"VfNorton", "VfImplicitNorton", "VfPlasticity", "VfHypo"}
 
 # hypotheses each behaviour is generated for (reference files: Elasticity and ImplicitNorton declare ".+")
 _STD = ["Tridimensional", "Axisymmetrical", "PlaneStrain", "GeneralisedPlaneStrain", "AxisymmetricalGeneralisedPlaneStrain"]
 HYPS = {"Elasticity": _STD + ["PlaneStress"], "ImplicitNorton": _STD + ["PlaneStress"], "VfImplicitNorton": _STD + ["PlaneStress"],
-        "Norton": _STD, "VfNorton": _STD, "Plasticity": _STD, "VfPlasticity": _STD, "VfEcho": _STD}
+        "VfHypo": _STD, "Norton": _STD, "VfNorton": _STD, "Plasticity": _STD, "VfPlasticity": _STD, "VfEcho": _STD}
 
 # names of the components as documented in docs/mtest/mtest/ImposedStrain.md / ImposedStress.md
 ALL_E = {"AxisymmetricalGeneralisedPlaneStrain": ["ERR", "EZZ", "ETT"], "Axisymmetrical": ["ERR", "EZZ", "ETT", "ERZ"],
@@ -222,6 +229,12 @@ def rand_material(g, law):
     info = {"E": E, "nu": nu}
     if law == "elastic":
         eamp, samp = 10.0 ** g.uniform(-5, -2.5), E * 10.0 ** g.uniform(-5, -3)
+    elif law == "hypo":
+        # rate-form law with explicit flow: the reference rate is set by the caller from the duration (see c50)
+        eamp = 10.0 ** g.uniform(-4, -2)
+        samp = E * eamp * g.uniform(0.3, 1.0)
+        mp.update({"ReferenceCreepRate": 0.0, "ReferenceStress": E * eamp})
+        info.update({"sref": E * eamp})
     elif law == "norton":
         n = g.uniform(3.0, 8.2)
         s_ref = 10.0 ** g.uniform(7.3, 8.0)          # stress giving a creep rate of rate_ref
@@ -249,13 +262,18 @@ def rand_material(g, law):
 
 # ------------------------------------------------------------------------------ mtest files
 
-def mtest_text(lib, bname, hyp, mp, times, constraints, eeps, seps, extra=(), esv=None, prec=17, maxsub=1, itermax=None):
-    """constraints: list of (kind 'E'|'S', component, Evo)"""
+def mtest_text(lib, bname, hyp, mp, times, constraints, eeps, seps, extra=(), esv=None, prec=17, maxsub=1, itermax=None,
+               wrapper=None, temperature=None):
+    """constraints: list of (kind 'E'|'S', component, Evo); wrapper: None | 'LogarithmicStrain1D' |
+    'SmallStrainTridimensionalBehaviourWrapper' (mtest/src/*BehaviourWrapper.cxx reachable from the input file)"""
     L = ["@OutputFilePrecision %d;" % prec, "@ModellingHypothesis '%s';" % hyp,
-         "@Behaviour<generic> '%s' '%s';" % (lib, bname)]
+         "@Behaviour<generic%s> '%s' '%s';" % ("," + wrapper if wrapper else "", lib, bname)]
     for k, v in mp.items():
         L.append("@MaterialProperty<constant> '%s' %s;" % (k, fl(v)))
-    L.append("@ExternalStateVariable 'Temperature' 293.15;")
+    if temperature is None:
+        L.append("@ExternalStateVariable 'Temperature' 293.15;")
+    else:
+        L.append("@ExternalStateVariable<%s> 'Temperature' %s;" % (temperature.kind, temperature.text))
     for k, ev in (esv or {}).items():
         L.append("@ExternalStateVariable<%s> '%s' %s;" % (ev.kind, k, ev.text))
     L.append("@StrainEpsilon %s;" % fl(eeps))
